@@ -197,6 +197,31 @@ func refCuts(name string, u []byte, per int) []int {
 	return ends
 }
 
+// callSplitBatch: the same request through the batch encoder with that single candidate coding
+func callSplitBatch(c coding, text string, ref byte) (parts [][]byte, actual int, err error, oc Outcome) {
+	oc = Guard(func() {
+		b := sms.NewBatchDataCodingEncoder().Content(text, ref)
+		var dc datacoding.ProtocolDataCoding
+		if c.proto == "cmpp" {
+			b = b.Protocol(sms.CMPP)
+			dc = datacoding.CMPPDataCoding(c.num)
+		} else {
+			b = b.Protocol(sms.SMPP)
+			dc = datacoding.SMPPDataCoding(c.num)
+		}
+		var a datacoding.ProtocolDataCoding
+		parts, a, err = b.DataCodings([]datacoding.ProtocolDataCoding{dc}).Build(context.Background())
+		actual = -1
+		switch v := a.(type) {
+		case datacoding.CMPPDataCoding:
+			actual = int(v)
+		case datacoding.SMPPDataCoding:
+			actual = int(v)
+		}
+	})
+	return
+}
+
 func callSplit(c coding, text string, ref byte) (parts [][]byte, actual int, err error, oc Outcome) {
 	oc = Guard(func() {
 		if c.proto == "cmpp" {
@@ -241,6 +266,7 @@ type splitCtx struct {
 	res        *Result
 	prop       string
 	ops, goOut []string
+	held       []heldParts
 }
 
 func (sc *splitCtx) viol(p, cls, what string, ops []string) {
@@ -251,10 +277,41 @@ func (sc *splitCtx) viol(p, cls, what string, ops []string) {
 
 // evalSplit runs one request and evaluates the clauses of C06, C07 and C14.
 func (sc *splitCtx) evalSplit(req coding, text string, ref byte) {
+	sc.evalSplitVia(req, text, ref, false)
+	// the same request through the batch encoder (one candidate): its parts are held to the same clauses
+	if _, valid := codingByNum(req.proto, req.num); valid && len(text) > 0 {
+		sc.evalSplitVia(req, text, ref, true)
+	}
+}
+
+type heldParts struct {
+	op    string
+	parts [][]byte
+	snap  [][]byte
+}
+
+func (sc *splitCtx) evalSplitVia(req coding, text string, ref byte, batch bool) {
 	res := sc.res
 	opText := fmt.Sprintf("splittext %s %d %d %s", req.proto, req.num, ref, cpsOf(text))
-	parts, actual, err, oc := callSplit(req, text, ref)
+	var parts [][]byte
+	var actual int
+	var err error
+	var oc Outcome
+	if batch {
+		opText = fmt.Sprintf("splitbatch %s %d %d %s", req.proto, req.num, ref, cpsOf(text))
+		parts, actual, err, oc = callSplitBatch(req, text, ref)
+	} else {
+		parts, actual, err, oc = callSplit(req, text, ref)
+	}
 	res.Eval(opText, len(text) > 0)
+	if err == nil && oc.Panic == "" && len(sc.held) < 20000 {
+		// what was returned is the caller's: it is looked at again after all later calls (see the end of runSplit)
+		h := heldParts{op: opText, parts: parts}
+		for _, p := range parts {
+			h.snap = append(h.snap, append([]byte(nil), p...))
+		}
+		sc.held = append(sc.held, h)
+	}
 	if oc.Panic != "" {
 		sc.viol(sc.prop, sc.prop+".split-panics", "splitting panics: "+oc.Panic, []string{opText})
 		return
@@ -308,7 +365,9 @@ func (sc *splitCtx) evalSplit(req coding, text string, ref byte) {
 	ac, _ := codingByNum(req.proto, actual)
 	// model correspondence on the encoded units
 	op := fmt.Sprintf("split %s %d %d %d %s", bndName(ac.name), max, per, ref, hx(units))
-	sc.ops, sc.goOut = append(sc.ops, op), append(sc.goOut, renderParts(parts))
+	if !batch {
+		sc.ops, sc.goOut = append(sc.ops, op), append(sc.goOut, renderParts(parts))
+	}
 	rep := []string{opText, op}
 	res.Count(fmt.Sprintf("%s/%s/parts=%s", req.proto, ac.name, bucket(len(parts))))
 	// single part
@@ -499,9 +558,10 @@ func buildText(name string, g *Rng, target, at int) string {
 }
 
 func runSplit(res *Result, d *Driver, g *Rng, tier, prop string) {
-	res.Rule = "texts per coding (CMPP 0,8,9,15 / SMPP 0,1,3,8,99 and invalid numbers) with encoded length 0,1, around the single/multi thresholds (140 octets, 160 septets) and around k*134 / k*153 (k=1..4, ±2), multi-unit characters (escape pairs, surrogate pairs, 2- and 4-octet GB18030) starting at every offset -4..+4 relative to every part boundary 1..4, lengths around 255/256 parts, requests that fall back to UCS-2 (surrogate pairs and units with low octet 0x1B around the boundaries), every reference byte class; header parser: (ref,total,seq) grid, 16-bit references, near-miss headers; non-trivial = distinct non-empty request"
+	res.Rule = "texts per coding (CMPP 0,8,9,15 / SMPP 0,1,3,8,99 and invalid numbers) with encoded length 0,1, around the single/multi thresholds (140 octets, 160 septets) and around k*134 / k*153 (k=1..4, ±2), multi-unit characters (escape pairs, surrogate pairs, 2- and 4-octet GB18030) starting at every offset -4..+4 relative to every part boundary 1..4, lengths around 255/256 parts, requests that fall back to UCS-2 (surrogate pairs and units with low octet 0x1B around the boundaries), every reference byte class; every request also through the batch encoder with that single candidate; every result looked at again after all later calls; header parser: (ref,total,seq) grid, 16-bit references, near-miss headers; non-trivial = distinct non-empty request"
 	thorough := tier == "thorough"
 	sc := &splitCtx{res: res, prop: prop}
+
 	reqs := append([]coding{}, codings...)
 	reqs = append(reqs, coding{"cmpp", 1, "?"}, coding{"cmpp", 4, "?"}, coding{"cmpp", 255, "?"}, coding{"smpp", 2, "?"}, coding{"smpp", 4, "?"}, coding{"smpp", 100, "?"}, coding{"smpp", -1, "?"})
 	refs := []byte{0, 1, 107, 0x7f, 0x80, 0xff}
@@ -610,6 +670,17 @@ func runSplit(res *Result, d *Driver, g *Rng, tier, prop string) {
 			}
 		}
 	}
+	func() {
+		// results handed out earlier must not have been touched by any later call
+		for _, h := range sc.held {
+			for i, p := range h.parts {
+				if !bytes.Equal(p, h.snap[i]) {
+					sc.viol("C06", "C06.parts-changed-by-later-call", fmt.Sprintf("part %d of an earlier result no longer holds what was returned (it shares storage with something a later call wrote)", i+1), []string{h.op})
+					return
+				}
+			}
+		}
+	}()
 	// header parser (C07)
 	if prop == "C07" {
 		runParseLong(sc, g, thorough)
@@ -702,6 +773,19 @@ func replaySplit(lines []string) []string {
 			fmt.Sscan(f[2], &num)
 			fmt.Sscan(f[3], &ref)
 			parts, actual, err, oc := callSplit(coding{proto: f[1], num: num}, textOfCps(f[4]), byte(ref))
+			switch {
+			case oc.Panic != "":
+				out = append(out, "panic")
+			case err != nil:
+				out = append(out, "err "+err.Error())
+			default:
+				out = append(out, fmt.Sprintf("coding=%d %s", actual, renderParts(parts)))
+			}
+		case len(f) == 5 && f[0] == "splitbatch":
+			var num, ref int
+			fmt.Sscan(f[2], &num)
+			fmt.Sscan(f[3], &ref)
+			parts, actual, err, oc := callSplitBatch(coding{proto: f[1], num: num}, textOfCps(f[4]), byte(ref))
 			switch {
 			case oc.Panic != "":
 				out = append(out, "panic")
